@@ -138,12 +138,17 @@ def setThr (s : State) (t : Nat) (th : Thread) : State :=
 def b2s (b : Bool) : String := if b then "1" else "0"
 def ev (t : Nat) (e : String) : String := s!"{t}:{e}"
 
-/-- notify_one on a wait set: which waiter (by raw draw), the remaining set, the event suffix -/
-def notifyOne (ws : List Nat) (c : Nat) : Option Nat × List Nat × String :=
-  if ws.isEmpty then (none, ws, "-")
-  else
-    let i := (c / 256) % ws.length
-    (some i, ws.eraseIdx i, toString (ws.getD i 0))
+/-- notify_one on a wait set: index of the woken waiter (by raw draw) -/
+def notifyIdx (ws : List Nat) (c : Nat) : Option Nat :=
+  if ws.isEmpty then none else some ((c / 256) % ws.length)
+
+/-- notify_one: the wait set afterwards -/
+def notifyRest (ws : List Nat) (c : Nat) : List Nat :=
+  if ws.isEmpty then ws else ws.eraseIdx ((c / 256) % ws.length)
+
+/-- notify_one: event suffix naming the woken thread -/
+def notifyWho (ws : List Nat) (c : Nat) : String :=
+  if ws.isEmpty then "-" else toString (ws.getD ((c / 256) % ws.length) 0)
 
 /-- the operation a thread performs is enabled without a spurious wake-up -/
 def enabled (cfg : Cfg) (s : State) (t : Nat) : Bool :=
@@ -176,40 +181,50 @@ def unfinished (s : State) (t : Nat) : Bool :=
 
 /-! ### thread-local continuations (no synchronisation operation) -/
 
-/-- main: after the clients were joined (or there are none): `~ThreadPool` begins -/
-def mainDtorBegin (t : Nat) : Pc × List String := (.mDLock, [ev t "dtor"])
+/-- main: after the clients were joined (or there are none) `~ThreadPool` begins (pc `mDLock`, note `dtor`) -/
+def mainJoinPc (cfg : Cfg) : Pc := if nclients cfg = 0 then .mDLock else .mJoinC 0
+def mainJoinEv (cfg : Cfg) (t : Nat) : List String := if nclients cfg = 0 then [ev t "dtor"] else []
 
-def mainJoinBegin (cfg : Cfg) (t : Nat) : Pc × List String :=
-  if nclients cfg = 0 then mainDtorBegin t else (.mJoinC 0, [])
+def mainScriptPc (cfg : Cfg) : Pc := if cfg.mainCalls.isEmpty then mainJoinPc cfg else .call 0 .lock
+def mainScriptEv (cfg : Cfg) (t : Nat) : List String := if cfg.mainCalls.isEmpty then mainJoinEv cfg t else []
 
-def mainScriptBegin (cfg : Cfg) (t : Nat) : Pc × List String :=
-  if cfg.mainCalls.isEmpty then mainJoinBegin cfg t else (.call 0 .lock, [])
+/-- id of the job a worker is executing -/
+def jobId (th : Thread) : Nat := (th.job.map (·.id)).getD 0
 
-/-- what follows the return of call `k` of the thread's script (or the start of the script with `k+1 = 0`…) -/
-def afterCall (cfg : Cfg) (s : State) (t : Nat) (th : Thread) (k : Nat) : State × List String :=
-  if k + 1 < (script cfg th).length then
-    (setThr s t { th with pc := .call (k + 1) .lock }, [])
-  else
-    match th.role with
-    | .main =>
-      let (pc, evs) := mainJoinBegin cfg t
-      (setThr s t { th with pc := pc }, evs)
-    | .client _ => (setThr s t { th with pc := .finished }, [])
-    | .worker =>
-      -- the job body returns: job object destroyed, then the fence
-      let id := (th.job.map (·.id)).getD 0
-      ({ setThr s t { th with pc := .wFence } with finished := s.finished ++ [id] }, [ev t s!"job-{id}"])
+/-- the thread record after the last call of its script returned -/
+def endOfScript (cfg : Cfg) (th : Thread) : Thread :=
+  match th.role with
+  | .main => { th with pc := mainJoinPc cfg }
+  | .client _ => { th with pc := .finished }
+  | .worker => { th with pc := .wFence }      -- the job body returns: job object destroyed, then the fence
+
+def endOfScriptEv (cfg : Cfg) (t : Nat) (th : Thread) : List String :=
+  match th.role with
+  | .main => mainJoinEv cfg t
+  | .client _ => []
+  | .worker => [ev t s!"job-{jobId th}"]
+
+/-- ghost: a job body that returns is recorded as finished -/
+def endOfScriptFin (s : State) (th : Thread) : List Nat :=
+  match th.role with
+  | .worker => s.finished ++ [jobId th]
+  | _ => s.finished
+
+/-- what follows the return of call `k` of the thread's script -/
+def afterCall (cfg : Cfg) (s : State) (t : Nat) (th : Thread) (k : Nat) : State :=
+  if k + 1 < (script cfg th).length then setThr s t { th with pc := .call (k + 1) .lock }
+  else { setThr s t (endOfScript cfg th) with finished := endOfScriptFin s th }
+
+def afterCallEv (cfg : Cfg) (t : Nat) (th : Thread) (k : Nat) : List String :=
+  if k + 1 < (script cfg th).length then [] else endOfScriptEv cfg t th
 
 /-- beginning of a script (client start, job body start) -/
-def beginScript (cfg : Cfg) (s : State) (t : Nat) (th : Thread) : State × List String :=
-  if (script cfg th).isEmpty then
-    match th.role with
-    | .main => (s, [])  -- not used
-    | .client _ => (setThr s t { th with pc := .finished }, [])
-    | .worker =>
-      let id := (th.job.map (·.id)).getD 0
-      ({ setThr s t { th with pc := .wFence } with finished := s.finished ++ [id] }, [ev t s!"job-{id}"])
-  else (setThr s t { th with pc := .call 0 .lock }, [])
+def beginScript (cfg : Cfg) (s : State) (t : Nat) (th : Thread) : State :=
+  if (script cfg th).isEmpty then { setThr s t (endOfScript cfg th) with finished := endOfScriptFin s th }
+  else setThr s t { th with pc := .call 0 .lock }
+
+def beginScriptEv (cfg : Cfg) (t : Nat) (th : Thread) : List String :=
+  if (script cfg th).isEmpty then endOfScriptEv cfg t th else []
 
 /-- state after the mutex was (re-)acquired inside loop_until_empty / loop_until_terminate:
     evaluation of the wait predicate up to its first atomic load -/
@@ -237,23 +252,22 @@ def step (cfg : Cfg) (s : State) (t : Nat) (c : Nat) : Option (StepOut State) :=
     match th.role with
     | .main => out (setThr s t { th with pc := .mCtor 0 }) [ev t "start"]
     | .worker => out (setThr s t { th with pc := .wLock }) [ev t "start"]   -- init_thread_ is empty
-    | .client _ =>
-      let (s', evs) := beginScript cfg s t th
-      out s' (ev t "start" :: evs)
+    | .client _ => out (beginScript cfg s t th) (ev t "start" :: beginScriptEv cfg t th)
   -- ------------------------------------------------------------ main
   | .mCtor i =>
     let s1 := { s with spawned := workerTid i }
-    let (pc, evs) := if i + 1 < cfg.nworkers then (Pc.mCtor (i + 1), [])
-                     else if nclients cfg = 0 then mainScriptBegin cfg t else (Pc.mSpawn 0, [])
-    out (setThr s1 t { th with pc := pc }) (ev t s!"spawn({workerTid i})" :: evs)
+    if i + 1 < cfg.nworkers then out (setThr s1 t { th with pc := .mCtor (i + 1) }) [ev t s!"spawn({workerTid i})"]
+    else if nclients cfg = 0 then
+      out (setThr s1 t { th with pc := mainScriptPc cfg }) (ev t s!"spawn({workerTid i})" :: mainScriptEv cfg t)
+    else out (setThr s1 t { th with pc := .mSpawn 0 }) [ev t s!"spawn({workerTid i})"]
   | .mSpawn i =>
     let s1 := { s with spawned := clientTid cfg i }
-    let (pc, evs) := if i + 1 < nclients cfg then (Pc.mSpawn (i + 1), []) else mainScriptBegin cfg t
-    out (setThr s1 t { th with pc := pc }) (ev t s!"spawn({clientTid cfg i})" :: evs)
+    if i + 1 < nclients cfg then out (setThr s1 t { th with pc := .mSpawn (i + 1) }) [ev t s!"spawn({clientTid cfg i})"]
+    else out (setThr s1 t { th with pc := mainScriptPc cfg }) (ev t s!"spawn({clientTid cfg i})" :: mainScriptEv cfg t)
   | .mJoinC i =>
     if pcOf s (clientTid cfg i) == .finished then
-      let (pc, evs) := if i + 1 < nclients cfg then (Pc.mJoinC (i + 1), []) else mainDtorBegin t
-      out (setThr s t { th with pc := pc }) (ev t s!"join({clientTid cfg i})" :: evs)
+      if i + 1 < nclients cfg then out (setThr s t { th with pc := .mJoinC (i + 1) }) [ev t s!"join({clientTid cfg i})"]
+      else out (setThr s t { th with pc := .mDLock }) [ev t s!"join({clientTid cfg i})", ev t "dtor"]
     else none
   | .mDLock =>
     if s.owner.isNone then out { setThr s t { th with pc := .mDStore } with owner := some t } [ev t "lock(m)"] else none
@@ -294,9 +308,8 @@ def step (cfg : Cfg) (s : State) (t : Nat) (c : Nat) : Option (StepOut State) :=
               busy := s.busy + 1, queue := q, started := s.started ++ [j.id] }
           [ev t s!"rmw(busy)={s.busy + 1}"]
   | .wUnlockRun =>
-    let id := (th.job.map (·.id)).getD 0
-    let (s', evs) := beginScript cfg { s with owner := none } t th
-    out s' (ev t "unlock(m)" :: ev t s!"job+{id}" :: evs)
+    out (beginScript cfg { s with owner := none } t th)
+        (ev t "unlock(m)" :: ev t s!"job+{jobId th}" :: beginScriptEv cfg t th)
   | .wFence => out (setThr s t { th with pc := .wDoneInc, job := none }) [ev t "fence"]
   | .wDoneInc => out { setThr s t { th with pc := .wBusyDec } with done := s.done + 1 } [ev t s!"rmw(done)={s.done + 1}"]
   | .wBusyDec => out { setThr s t { th with pc := .wRelock } with busy := s.busy - 1 } [ev t s!"rmw(busy)={s.busy - 1}"]
@@ -322,10 +335,9 @@ def step (cfg : Cfg) (s : State) (t : Nat) (c : Nat) : Option (StepOut State) :=
     | .enqNotify =>
       match a with
       | .enq code =>
-        let (i, ws, who) := notifyOne s.wJ c
         some { st := { setThr s t { th with pc := .call k .unlock } with
-                         queue := s.queue ++ [⟨s.nextId, code⟩], nextId := s.nextId + 1, wJ := ws },
-               evs := [ev t s!"n1(cvj)>{who}"], drawIdx := i }
+                         queue := s.queue ++ [⟨s.nextId, code⟩], nextId := s.nextId + 1, wJ := notifyRest s.wJ c },
+               evs := [ev t s!"n1(cvj)>{notifyWho s.wJ c}"], drawIdx := notifyIdx s.wJ c }
       | _ => none
     | .tStore => out { setThr s t { th with pc := .call k .tNotifyJ } with term := true } [ev t "st(term)=1"]
     | .tNotifyJ => out { setThr s t { th with pc := .call k .tNotifyF } with wJ := [] } [ev t s!"nall(cvj)#{s.wJ.length}"]
@@ -345,13 +357,11 @@ def step (cfg : Cfg) (s : State) (t : Nat) (c : Nat) : Option (StepOut State) :=
       else none
     | .fence => out (setThr s t { th with pc := .call k .unlock }) [ev t "fence"]
     | .unlock =>
-      let s1 := { s with owner := none }
       let note := match a with
         | .lue => [ev t "ret(w)"]
         | .lut => [ev t "ret(u)"]
         | _ => []
-      let (s2, evs) := afterCall cfg s1 t th k
-      out s2 (ev t "unlock(m)" :: note ++ evs)
+      out (afterCall cfg { s with owner := none } t th k) (ev t "unlock(m)" :: note ++ afterCallEv cfg t th k)
 
 def lts (cfg : Cfg) : TlxVerif.Sched.LTS State where
   nthreads := fun s => s.thr.length
